@@ -55,7 +55,7 @@ def expand(b, rnd, norders):
                 # so the same graph is run under other names, too
                 for ren in NAMESETS[:2 if norders == 1 else 4]:
                     out.append(dict(c, rename=ren))
-            if accmode != 'start':
+            if accmode != 'start' and order == perms[0]:
                 # the same with no module exported (export=False): such modules are initialised by the server itself
                 # after the description has been built - their errors refuse the node like any other, a healthy
                 # node starts them like any other
